@@ -134,15 +134,16 @@ class ScatLayerj2(nn.Module):
 
     def forward(self, x):
         # Ensure the input size is divisible by 8
+        # (a side shorter than the extension needs more than one pass)
         ch, r, c = x.shape[1:]
-        rem = r % 8
-        if rem != 0:
+        while x.shape[2] % 8 != 0:
+            rem = x.shape[2] % 8
             rows_after = (9-rem)//2
             rows_before = (8-rem) // 2
             x = torch.cat((x[:,:,:rows_before], x,
                            x[:,:,-rows_after:]), dim=2)
-        rem = c % 8
-        if rem != 0:
+        while x.shape[3] % 8 != 0:
+            rem = x.shape[3] % 8
             cols_after = (9-rem)//2
             cols_before = (8-rem) // 2
             x = torch.cat((x[:,:,:,:cols_before], x,
